@@ -17,7 +17,7 @@ CHECKS.update({
  "C03": ("Hypothesis-generated keys x episode plans continued past LAST; FIRST/MID/LAST protocol monitor over the whole history; coincidence cases (constructive episode replayed with time_limit = its completion step); bulk sweeps (10^3..10^4 generated episodes per small entry in one vmapped scan, device-side protocol predicate, flagged episodes re-judged on the host)",
          "Generated-history exploration: a monitor checks reset (FIRST, zero reward, unit discount, spec shapes) and every step including up to 4 steps issued after the first LAST (type in {MID, LAST}, discount in [0,1], MID not all-zero, LAST all-zero with the documented LBF truncation exception) on all 23 environments; evidence reports how many histories reached LAST per environment and cause.",
          "LBF LAST at step_count >= time_limit may carry discount one; finite menus.", "3/C03"),
- "C11": ("metamorphic twin env(T) vs env(T+5) on identical key and concrete actions, T in {1,2,3,7,default,None}; survive-biased and purposeful (solver) Hypothesis plans up to mid-sized limits; documented-other-reasons predicate for a LAST before the limit; structural-horizon bound from the reset instance for the 10 untimed envs",
+ "C11": ("metamorphic twin env(T) vs env(T+5) on identical key and concrete actions, T in {1,2,3,7,default,None}; survive-biased and purposeful (solver) Hypothesis plans up to mid-sized limits; documented-other-reasons predicate for a LAST before the limit; structural-horizon bound from the reset instance for the 10 untimed envs; bulk twin / horizon sweeps (10^3 generated episodes per env in one vmapped scan of both twins, flagged episodes re-judged on the host)",
          "Generated-history exploration with a metamorphic oracle that needs no model of 'other reasons': the same key and actions are played in env(T) and env(T+5); step types must agree before T, env(T) must be LAST exactly at T. Policies are look-ahead 'survive' plans so that most episodes reach T (reported per env). Untimed CO environments are checked against a horizon computed from the instance (items, nodes, cells, operations).",
          "Assumes the time limit affects termination only; documented None defaults (rows*cols, 1000).", "3/C11"),
 })
@@ -25,7 +25,7 @@ CHECKS.update({
  "C02": ("Hypothesis-generated call histories: stored (args -> result) pairs re-issued on the same object, on a fresh instance in reverse order, eagerly, inside vmap batches and as one lax.scan; argument snapshots (values + field identities); jaxpr effect scan; event-directed eager sampling (jitted pool search, rarest outcome groups re-executed in plain Python); interference round (wrappers / adapters run on the same object in between); process-isolation differential under other string-hash salts",
          "Generated-history exploration of purity and of commutation with jit/vmap/scan on all 23 environments: bitwise determinism under repetition and on fresh instances, arguments untouched (also under rationed eager execution where Python-level mutation is possible), eager vs jit vs vmap vs scan agreement within a measured float tolerance, and a structural scan of the traced programs for effects/callbacks.",
          "Histories, batch sizes and scan lengths are sampled (batch 3, length 10), eager calls rationed to a few per configuration; float tolerance rtol 1e-5.", "3/C02"),
- "C13": ("side-by-side differential oracle against the reference composition (unwrapped step; on LAST reset with split(terminal key)[0]) on Hypothesis-generated multi-episode runs (incl. constructive plans that end episodes by completion, long purposeful runs, stacked wrappers, typed keys); re-run as lax.scan, under vmap and (rationed) in plain Python; key-repeat and cross-run key-collapse oracles",
+ "C13": ("side-by-side differential oracle against the reference composition (unwrapped step; on LAST reset with split(terminal key)[0]) on Hypothesis-generated multi-episode runs (incl. constructive plans that end episodes by completion, long purposeful runs, stacked wrappers, typed keys); re-run as lax.scan, under vmap and (rationed) in plain Python; key-repeat and cross-run key-collapse oracles; bulk sweeps (10^3 generated 40-step runs per env compared with the reference composition on the device, flagged runs re-judged on the host)",
          "Generated-history exploration over real environments (not the test fake), both next_obs_in_extras settings: every wrapped step is compared leaf by leaf with the reference composition; runs span many episode boundaries (counted in evidence); key freshness and instance variety are checked per run; the same run is repeated as one jitted scan and under vmap.",
          "Reference key derivation split(key)[0] as documented in the wrapper; finite env/config menu.", "3/C13"),
  "C14": ("differential oracles on Hypothesis-generated batches: VmapWrapper slices vs unwrapped execution; VmapAutoResetWrapper vs VmapWrapper(AutoResetWrapper) step by step with staggered terminations (batch sizes 1..6 and 129..257, stacked wrappers, typed keys, rationed plain-Python steps); identity-render probe",
